@@ -606,6 +606,7 @@ type runner struct {
 
 	// both routers over one storage whose CreateAuthRequest can be made to fail
 	routers  [2]http.Handler
+	provider *op.Provider
 	rstore   *refstore.Store
 	rstorage *failingCreate
 }
@@ -682,7 +683,24 @@ func (x *runner) add(c emit.Case) {
 // with err when err != nil (an error raised after all request validation).
 type failingCreate struct {
 	op.Storage
-	err error
+	err     error
+	session string // when set, auth requests read back implement op.AuthRequestSessionState
+}
+
+// sessReq adds GetSessionState to the reference storage's auth request.
+type sessReq struct {
+	op.AuthRequest
+	ss string
+}
+
+func (r sessReq) GetSessionState() string { return r.ss }
+
+func (s *failingCreate) AuthRequestByID(ctx context.Context, id string) (op.AuthRequest, error) {
+	r, err := s.Storage.AuthRequestByID(ctx, id)
+	if err == nil && s.session != "" {
+		return sessReq{r, s.session}, nil
+	}
+	return r, err
 }
 
 func (s *failingCreate) CreateAuthRequest(ctx context.Context, r *oidc.AuthRequest, userID string) (op.AuthRequest, error) {
@@ -705,6 +723,7 @@ func (x *runner) setupRouters() error {
 		return err
 	}
 	x.routers[opfix.Provider] = p
+	x.provider = p
 	x.routers[opfix.Legacy] = op.RegisterLegacyServer(op.NewLegacyServer(p, *op.DefaultEndpoints), op.AuthorizeCallbackHandler(p), op.WithFallbackLogger(x.log))
 	return nil
 }
@@ -753,6 +772,105 @@ func (x *runner) caseRouter(router opfix.Router, redirect, shapeName, rtype, rmo
 	x.add(emit.Case{Input: in, Observed: obs, Tags: tags,
 		Human: map[string]any{"router": router.String(), "request": req.URL.String(), "redirect_uri": redirect, "response_type": rtype, "response_mode": rmode,
 			"error": etype, "error_description": desc, "state": state, "status": rec.Code, "location": loc}})
+}
+
+// canon replaces a credential the provider minted for THIS request by its
+// canonical name after checking it against the provider; anything else stays.
+func (x *runner) canon(ps []pair, own []pair, reqID, nonce, subject string) []pair {
+	var out []pair
+	had := map[string]int{} // values of that name the redirect URI itself carries (they come first)
+	for _, p := range own {
+		had[p.k]++
+	}
+	for _, p := range ps {
+		switch p.k {
+		case "token_type", "expires_in", "scope": // the provider's: not listed by the property; expires_in depends on the clock
+			if had[p.k] > 0 {
+				had[p.k]--
+				out = append(out, p)
+			}
+			continue
+		case "code":
+			if id, err := x.provider.Crypto().Decrypt(p.v); err == nil && id == reqID {
+				p.v = "CODE"
+			}
+		case "id_token":
+			if pl := opfix.JWTPayload(p.v); pl != nil && pl["nonce"] == nonce && pl["sub"] == subject {
+				p.v = "IDT"
+			}
+		case "access_token":
+			if s, err := x.provider.Crypto().Decrypt(p.v); err == nil && strings.HasSuffix(s, ":"+subject) {
+				p.v = "AT"
+			}
+		}
+		out = append(out, p)
+	}
+	return out
+}
+
+// caseFlow: the success path end to end over HTTP on one router:
+// GET /authorize -> login -> GET /authorize/callback.
+func (x *runner) caseFlow(router opfix.Router, redirect, shapeName, rtype, rmode, state, session, class string, extra ...string) {
+	x.rstore.Clients["c11"].Redirects = []string{redirect}
+	nonce := "nonce-" + fmt.Sprint(x.w.Len())
+	q := url.Values{"client_id": {"c11"}, "redirect_uri": {redirect}, "response_type": {rtype}, "scope": {"openid"}, "nonce": {nonce}}
+	if state != "" {
+		q.Set("state", state)
+	}
+	if rmode != "" {
+		q.Set("response_mode", rmode)
+	}
+	if rtype != "code" {
+		session = ""
+	}
+	h := x.routers[router]
+	obs := "OFail"
+	var status int
+	var loc, body, reqID string
+	p := drv.Catch(func() {
+		r1 := opfix.Do(h, httptest.NewRequest("GET", opfix.Issuer+"/authorize?"+q.Encode(), nil))
+		if r1.Panic != "" {
+			panic(r1.Panic)
+		}
+		if r1.Status != http.StatusFound || r1.Location == nil {
+			return
+		}
+		reqID = r1.Location.Query().Get("authRequestID")
+		if reqID == "" || !x.rstore.Login(reqID, "alice") {
+			return
+		}
+		x.rstorage.session = session
+		rec := httptest.NewRecorder()
+		h.ServeHTTP(x.writer(rec), httptest.NewRequest("GET", opfix.Issuer+"/authorize/callback?id="+url.QueryEscape(reqID), nil))
+		status, loc, body = rec.Code, rec.Header().Get("Location"), rec.Body.String()
+	})
+	x.rstorage.session = ""
+	switch {
+	case p != "":
+		obs = "OPanic"
+	case status == http.StatusFound:
+		base, qq, ff := browseURL(loc)
+		pre := []pair{}
+		if u, err := url.Parse(redirect); err == nil {
+			pre = parseFlat(u.RawQuery)
+		}
+		obs = emit.Ctor("OUrl", emit.Str(""), emit.Str(base), pairsTerm(x.canon(qq, pre, reqID, nonce, "alice")),
+			pairsTerm(x.canon(ff, nil, reqID, nonce, "alice")), pairsTerm(pre))
+	case status == http.StatusOK:
+		action, fields, clean := browseForm(body)
+		obs = emit.Ctor("OForm", emit.Str(""), emit.Str(action), pairsTerm(x.canon(fields, nil, reqID, nonce, "alice")), emit.Bool(clean))
+	}
+	pt, _ := parsedTerm(redirect)
+	in := emit.Ctor("IFlow", emit.Str(redirect), pt, emit.Str(rtype), emit.Str(rmode), emit.Str(state), emit.Str(session))
+	mt := modeTag(rmode)
+	if rmode == "form_post" {
+		mt = "form_post"
+	}
+	tags := append([]string{"api=flow", "router=" + router.String(), "mode=" + mt, "rtype=" + rtypeTag(rtype), "resp=success", "uri=" + shapeName,
+		"scheme=" + schemeClass(redirect), "val=" + class}, extra...)
+	x.add(emit.Case{Input: in, Observed: obs, Tags: tags,
+		Human: map[string]any{"router": router.String(), "authorize": q.Encode(), "redirect_uri": redirect, "response_type": rtype, "response_mode": rmode,
+			"state": state, "session_state": session, "status": status, "location": loc, "body": body}})
 }
 
 // caseTryErr: op.TryErrorRedirect (LegacyServer's copy of AuthRequestError) with
@@ -984,6 +1102,14 @@ func main() {
 		x.caseRouter(rt, plainURI, "plain", "code", "fragment", "", "", "a+b", true, "classic", "fixed=router_error_mode")
 		x.caseRouter(rt, plainURI, "plain", "id_token token", "query", "access_denied", "no", "a+b", false, "classic", "fixed=router_error_mode")
 	}
+	// success path over HTTP: every registered response type x the three modes, both routers
+	for _, rt := range []opfix.Router{opfix.Provider, opfix.Legacy} {
+		for _, ty := range []string{"code", "id_token token", "id_token"} {
+			for _, md := range []string{"", "query", "fragment", "form_post"} {
+				x.caseFlow(rt, plainURI, "plain", ty, md, "a+b/=", "sess 1", "classic", "fixed=flow_matrix")
+			}
+		}
+	}
 	// a form_post response whose write broke, then another user's form_post response
 	x.fault = &faultSpec{accept: 200}
 	x.caseCode(plainURI, "plain", "code", "form_post", "code-of-user-1", "state-of-user-1", "", "classic")
@@ -1044,6 +1170,17 @@ func main() {
 				sh = drv.Pick(r, []shape{{"empty", ""}, {"unparseable", "http://[::1"}, {"unparseable", "https://rp.example.com/%zz"}})
 			}
 			x.caseTryErr(sh.uri, sh.name, rtype, rmode, drv.Pick(r, errTypes), vs[0], vs[1], r.Chance(1, 4), r.Chance(1, 12), class)
+		case 10, 11: // success path end to end on the Provider router / the LegacyServer router
+			vs, class := g.pickVals(2)
+			sh := g.uriShape(true)
+			if r.Chance(1, 3) {
+				rmode = "form_post"
+			}
+			router := opfix.Provider
+			if kind == 11 {
+				router = opfix.Legacy
+			}
+			x.caseFlow(router, sh.uri, sh.name, drv.Pick(r, []string{"code", "id_token token", "id_token", "id_token"}), rmode, vs[0], vs[1], class)
 		default: // 8, 9: GET /authorize on the Provider router / the LegacyServer router, error after validation
 			vs, class := g.pickVals(2)
 			sh := g.uriShape(true)
@@ -1055,7 +1192,7 @@ func main() {
 				drv.Pick(r, errTypes), vs[0], vs[1], r.Chance(1, 5), class)
 		}
 	}
-	kinds := []int{0, 1, 2, 3, 4, 5, 6, 7, 8, 9, 3, 5, 8, 9}
+	kinds := []int{0, 1, 2, 3, 4, 5, 6, 7, 8, 9, 10, 11, 3, 5, 8, 9, 10, 11}
 	for it := 0; w.Len() < n; it++ {
 		kind := kinds[it%len(kinds)]
 		// sequences: every third call is preceded by one or two calls whose response
@@ -1063,14 +1200,14 @@ func main() {
 		if it%3 == 1 {
 			for k, m := 0, 1+r.IntN(2); k < m; k++ {
 				x.fault = &faultSpec{accept: drv.Pick(r, []int{0, 1, 17, 100, 200, 260, 400}), short: r.Chance(1, 3)}
-				call(drv.Pick(r, []int{3, 4, 5, 5, 3, 6, 7, 8, 9}))
+				call(drv.Pick(r, []int{3, 4, 5, 5, 3, 6, 7, 8, 9, 10, 11}))
 				x.fault = nil
 			}
 		}
 		call(kind)
 	}
 	err := w.Close(emit.Meta{Property: "C11", Tier: cfg.Tier, Seed: cfg.Seed,
-		Rule: "calls of AuthResponseURL / AuthResponseFormPost / AuthResponseCode / AuthRequestError / TryErrorRedirect (with the parsed *oidc.AuthRequest) and GET /authorize on BOTH routers with a storage that fails CreateAuthRequest after validation; every third call is preceded by 1-2 calls answered into an http.ResponseWriter that breaks after 0..400 body bytes (error or short write), emitted as IAfter; parameter values from 14 classes (alnum, std-base64, ASCII punctuation, a 0..255 byte sweep, multi-byte runes, ill-formed UTF-8, control bytes, percent sequences, markup, random bytes, long, empty, classic, url-safe) x ~50 redirect URI shapes (plain, with query incl. malformed/colliding/raw, with fragment, custom scheme, opaque, relative, unparseable, hostile strings for the form) x 9 response_mode strings x 7 response_type strings; a block of fixed cases replays the known defects first. Non-trivial = something was delivered (path class != 0); distinct = distinct input term.",
+		Rule: "calls of AuthResponseURL / AuthResponseFormPost / AuthResponseCode / AuthRequestError / TryErrorRedirect (with the parsed *oidc.AuthRequest), GET /authorize on BOTH routers with a storage that fails CreateAuthRequest after validation, and the success path end to end (authorize -> login -> callback) on BOTH routers for the registered response types x all response_mode strings, minted credentials checked against the provider and canonicalised; every third call is preceded by 1-2 calls answered into an http.ResponseWriter that breaks after 0..400 body bytes (error or short write), emitted as IAfter; parameter values from 14 classes (alnum, std-base64, ASCII punctuation, a 0..255 byte sweep, multi-byte runes, ill-formed UTF-8, control bytes, percent sequences, markup, random bytes, long, empty, classic, url-safe) x ~50 redirect URI shapes (plain, with query incl. malformed/colliding/raw, with fragment, custom scheme, opaque, relative, unparseable, hostile strings for the form) x 9 response_mode strings x 7 response_type strings; a block of fixed cases replays the known defects first. Non-trivial = something was delivered (path class != 0); distinct = distinct input term.",
 		Notes: []string{"user agent for URLs: strings.Cut at '#' and '?', url.ParseQuery on the raw query and raw fragment", "user agent for forms: UTF-8 decode (ill-formed byte -> U+FFFD) then golang.org/x/net/html tokenizer; clean = token stream equals the template skeleton"},
 	})
 	if err != nil {
